@@ -107,6 +107,9 @@ type cwRig struct {
 	handlers map[int]*cwHandler
 	ugates   map[int64]chan struct{}
 	serveRet bool
+	// the stream loop held at the yield point cs.loop.read
+	loopArmed bool
+	loopGate  chan struct{}
 	// scripted client (server mode): what it sent
 	cliSent []*Rpc
 	nCli    int
@@ -456,6 +459,31 @@ func (r *cwRig) do(a Step) []string {
 			return []string{fmt.Sprintf("ACancel %d", a.C)}
 		}
 		return nil
+	case "holdloop":
+		// the next time a stream loop is about to re-enter its Read it is held (yield point cs.loop.read)
+		r.mu.Lock()
+		r.loopArmed = true
+		r.loopGate = make(chan struct{})
+		r.mu.Unlock()
+		return nil
+	case "cancelsendf":
+		// D-07s, forced: with the loop held before its Read, the caller cancels and calls SendMsg (which observes the
+		// cancelled context and tears the registration down); only then the loop enters Read
+		cs := r.stream(a.C)
+		if cs == nil || a.C >= len(r.cancels) {
+			return nil
+		}
+		r.cancels[a.C]()
+		err := cs.SendMsg(bv(payloadOf(a.B)))
+		r.ev(fmt.Sprintf("EvSendRet %d %s", a.C, optErr(err)))
+		r.mu.Lock()
+		g := r.loopGate
+		r.loopGate = nil
+		r.mu.Unlock()
+		if g != nil {
+			close(g)
+		}
+		return []string{fmt.Sprintf("ACancel %d", a.C), fmt.Sprintf("ASend %d %s", a.C, coqZ(a.B))}
 	case "cancelsend":
 		// the caller cancels and, without yielding, calls SendMsg: the send may observe the cancelled context and tear
 		// the registration down before the stream loop has noticed the cancellation (witness of C07_recv_refuted)
@@ -875,7 +903,19 @@ func runCwScenario(t *testing.T, idx int, kind string, sc cwScenario, em *Emitte
 		cwBase = cwCensusRaw()
 		rig = &cwRig{t: t, mode: sc.Mode, link: link, pend: map[string]bool{}, ids: map[int]uint64{},
 			handlers: map[int]*cwHandler{}, ugates: map[int64]chan struct{}{}}
-		verifhook.SetYield(nil)
+		verifhook.SetYield(func(pt string) {
+			if pt != "cs.loop.read" {
+				return
+			}
+			rig.mu.Lock()
+			hold := rig.loopArmed
+			g := rig.loopGate
+			rig.loopArmed = false
+			rig.mu.Unlock()
+			if hold && g != nil {
+				<-g
+			}
+		})
 		goat.VerifResetTracking()
 		if sc.Mode != "server" {
 			rig.cc = goat.NewClientConn(link.C, "src", "dst")
@@ -953,6 +993,13 @@ func runCwScenario(t *testing.T, idx int, kind string, sc cwScenario, em *Emitte
 			rig.mu.Unlock()
 		}
 		// cleanup (not compared): release everything, fail both transports
+		rig.mu.Lock()
+		if rig.loopGate != nil {
+			close(rig.loopGate)
+			rig.loopGate = nil
+		}
+		rig.mu.Unlock()
+		verifhook.SetYield(nil)
 		for _, c := range rig.cancels {
 			c()
 		}
